@@ -14,5 +14,41 @@ CHECKS = {
          "recorded as 16-bit chunks). In-range arguments only (Set/Flip inside the matrix, SetBulk without bits beyond size).",
     technique="TLA+ abstract container spec; TLC model checking + TLC trace validation of recorded API histories + replay of TLC-generated behaviours"),
 }
+
+QR_TRUST = ("Trusted: TLC; the transcription of ISO/IEC 18004 in spec/QRTables.tla, QRSymbol.tla, QRStream.tla (independent of the library's "
+            "tables, cross-checked against a second generator and by the structural laws MC_QR proves for all 160 version/level pairs); "
+            "golang.org/x/text for the bytes of a text in a non-default character set; the harness projection (module matrix as 16-bit chunks).")
+CHECKS["C07"] = dict(
+    category="model_checking",
+    text="TLC model-checks the QR reference library itself (MC_QR: codeword totals = raw modules/8 from the function-pattern map, block "
+         "table laws, alignment positions, BCH(15,5)/(18,6) words by polynomial division and their minimum distances, reference "
+         "construction -> read-out -> parser round trip with zero syndromes). Trace validation then compares, module by module, matrices "
+         "produced by the real Encoder_encode / MatrixUtil_buildMatrix with the reference symbol TLC builds from the text (segment bits, "
+         "RS parity from prod(x-a^i), interleave, zig-zag placement, mask, function patterns, format/version info), and the decoder's "
+         "per-version tables, count widths and BCH decoders with the spec. Quick: all 40 versions at rotating (level, mask) plus versions "
+         "1, 7, 40 at many combinations; thorough: all 1280 (version, level, mask) configurations.",
+    design_ref="DESIGN.md section 6 C07", note=QR_TRUST,
+    technique="TLA+ reference construction of the symbol (ISO 18004) + TLC trace validation of encoder output and decoder tables")
+CHECKS["C13"] = dict(
+    category="model_checking",
+    text="MC_QR proves on the design that the encoder's two-pass version recommendation equals min{v : fits} for EVERY character count "
+         "(all modes, levels, header sizes) - settling the source comment 'not sure this works in 100% of cases' - and that the closed-form "
+         "capacities equal the published figures (7089/4296/2953/1817 for 40-L). Trace validation binds the code: encode requests at "
+         "every capacity boundary cap(v), cap(v)+1 of all 160 (version, level) pairs x 4 modes, free and with forced versions, must "
+         "yield exactly the spec's version or a refusal (thorough: every length for 8 mode/level pairs). Data Matrix size selection is "
+         "validated by the Data Matrix checks' size events.",
+    design_ref="DESIGN.md section 6 C13", note=QR_TRUST,
+    technique="TLC model checking of the version-recommendation design + trace validation of encode requests at all capacity boundaries")
+CHECKS["C01"] = dict(
+    category="model_checking",
+    text="Every recorded QR encode request (boundary lengths capacity / capacity-1 for each version, level and mode; forced versions and "
+         "masks; all 256 byte values; character-set hints; seeded random texts; rendered images of many sizes and margins) is judged by "
+         "TLC against the ISO 18004 reference: expected mode, version and refusal, (for a rotating subset) the whole matrix against the "
+         "reference symbol built from the text, the real decoder's text and level on the matrix, and the pure-barcode reader's text, "
+         "format and level on the rendered image. MC_QR shows the reference encoder and reference reader are inverse to each other, so "
+         "an error shared by the library's encoder and decoder cannot hide.",
+    design_ref="DESIGN.md section 6 C01", note=QR_TRUST + " Sampled over texts; exhaustive over (version, level, mode) boundaries only in the thorough tier.",
+    technique="TLA+ reference encoder/decoder (ISO 18004), TLC model checking of their round trip + trace validation of real write/read calls")
+
 NOT_YET = {
 }
